@@ -1,6 +1,7 @@
 package props
 
 import (
+	"math/rand"
 	"fmt"
 	"strings"
 
@@ -108,6 +109,17 @@ func c03Queries(cl adapt.Client, m *model.Client, st *mon.HistoryStats) []model.
 						d.Rule = "index-" + d.Rule
 						ds = append(ds, d)
 					}
+				}
+				// the same partition read with a FilterExpression that rejects some of its items (a filter is applied to
+				// what the key condition selects: the items behind a rejected one still belong to the answer)
+				fr := rand.New(rand.NewSource(int64(st.Calls)))
+				values := val.Item{":h": ixV(ix.Hash, hv)}
+				flt := typedFilter(fr, values, "c")
+				op := queryOp(name, ix.Name, keyCondEq(ix.Hash, ":h"), flt, values, fr.Intn(2) == 0, rrCanon)
+				st.Calls++
+				for _, d := range m.Step(op, cl.Do(op)) {
+					d.Rule = "index-filtered-" + d.Rule
+					ds = append(ds, d)
 				}
 			}
 		}
